@@ -154,33 +154,39 @@ def parse_assumptions(output):
 
 
 def check_props(pid, timeout=1500):
-    """Build props/<pid>.v (and everything it needs); returns dict with
-    ok, obligations [(name, assumptions)], build (BuildResult)."""
-    src = os.path.join(COQ, "props", f"{pid}.v")
-    text = open(src).read()
-    names = re.findall(r"^\s*Theorem\s+([A-Za-z0-9_']+)", text, flags=re.M)
+    """Build props/<pid>.v and its companion files props/<pid><suffix>.v (and everything they need); returns
+    dict with ok, obligations [(name, assumptions)], build (BuildResult)."""
+    import glob
+    files = sorted(f for f in glob.glob(os.path.join(COQ, "props", f"{pid}*.v"))
+                   if re.match(rf"^{pid}([a-z][A-Za-z0-9_]*)?\.v$", os.path.basename(f)))
     bad = forbidden_scan()
-    with BuildLock():
-        vo = os.path.join(COQ, "props", f"{pid}.vo")
-        if os.path.exists(vo):
-            os.remove(vo)
-        br = coq_make([f"props/{pid}.vo"], timeout=timeout)
-    res = {"ok": False, "build": br, "obligations": [], "names": names, "forbidden": bad}
-    if not br.ok:
-        return res
-    blocks = parse_assumptions(br.output)
-    if len(blocks) != len(names):
-        br.ok = False
-        br.excerpt = f"expected {len(names)} Print Assumptions blocks, found {len(blocks)}"
-        return res
+    res = {"ok": False, "build": None, "obligations": [], "names": [], "forbidden": bad}
+    allowed = AXIOMS_BY_PROPERTY.get(pid, set())
     ok = not bad
-    for n, b in zip(names, blocks):
-        allowed = AXIOMS_BY_PROPERTY.get(pid, set())
-        extra = [a for a in b if not a.startswith(PRIMITIVE_PREFIXES) and a not in allowed]
-        res["obligations"].append({"theorem": n, "assumptions": b, "disallowed": extra})
-        if extra:
-            ok = False
-    res["ok"] = ok
+    for src in files:
+        base = os.path.basename(src)[:-2]
+        names = re.findall(r"^\s*Theorem\s+([A-Za-z0-9_']+)", open(src).read(), flags=re.M)
+        res["names"] += names
+        with BuildLock():
+            vo = os.path.join(COQ, "props", f"{base}.vo")
+            if os.path.exists(vo):
+                os.remove(vo)
+            br = coq_make([f"props/{base}.vo"], timeout=timeout)
+        res["build"] = br
+        if not br.ok:
+            res["ok"] = False
+            return res
+        blocks = parse_assumptions(br.output)
+        if len(blocks) != len(names):
+            br.ok = False
+            br.excerpt = f"{base}.v: expected {len(names)} Print Assumptions blocks, found {len(blocks)}"
+            return res
+        for n, b in zip(names, blocks):
+            extra = [a for a in b if not a.startswith(PRIMITIVE_PREFIXES) and a not in allowed]
+            res["obligations"].append({"theorem": n, "assumptions": b, "disallowed": extra})
+            if extra:
+                ok = False
+    res["ok"] = ok and bool(files)
     return res
 
 
